@@ -29,6 +29,7 @@ RULES = {
     "C07-R2": "scalar writers: (10, signed) for Int32/Int64, (base, unsigned) for UInt*Base, Bool -> 0/1; prefix from the formatted base",
     "C07-R3": "text: writer wraps in and doubles '\"'; reader un-doubles exactly the delimiter of its token class",
     "C07-R4": "block header always has >= 1 length digit (never '#0'); the reader demands a non-zero digit count",
+    "C07-R6": "floating results are emitted with 15 (double) / 6 (float) significant digits in %g style (shared with C16-G1); the own formatter reports its decimal exponent through its out-parameter (C16-G4)",
     "C07-R5": "result buffers hold the longest text their format can produce (no silent truncation)",
 }
 
@@ -392,6 +393,10 @@ def run(ck, fb, tier):
             rule_r3(ck, prog, S)
             rule_r4(ck, prog)
         rule_r5(ck, prog)
+        from . import c16
+        px = K.RuleProxy(ck, {"C16-G1": "C07-R6", "C16-G4": "C07-R6"})
+        c16.rule_g1(px, prog, cfg)
+        c16.rule_g4(px, prog, S)
     ck.trust("printf %g produces at most sign + precision digits + point + e+ddd")
 
 
